@@ -1,6 +1,7 @@
 """sys.monitoring LINE-event utilities (DESIGN 2.5): code-object discovery,
 raise-at-the-k-th-line failpoints, line budgets (logical-step watchdog) and
 line coverage."""
+import _thread
 import sys
 import types
 
@@ -130,7 +131,8 @@ class Failpoints:
         self.exc_class = InjectedFault
 
     def _cb(self, code, line):
-        if not self.armed or code in self.exclude:
+        # (only the thread that armed the failpoint counts and is hit: other threads may be using the library too)
+        if not self.armed or code in self.exclude or _thread.get_ident() != self.owner:
             return None
         self.n += 1
         if self.k is not None and self.n == self.k:
@@ -148,6 +150,7 @@ class Failpoints:
         return False
 
     def count(self, thunk):
+        self.owner = _thread.get_ident()
         self.n, self.k, self.armed = 0, None, True
         try:
             thunk()
@@ -159,6 +162,7 @@ class Failpoints:
         """Run thunk with a fault at event k.  Returns (outcome, value) where
         outcome is 'injected' (InjectedFault propagated), 'returned', or
         'raised' (another exception)."""
+        self.owner = _thread.get_ident()
         self.n, self.k, self.armed, self.fired_at = 0, k, True, None
         self.exc_class = InjectedBaseFault if base else InjectedFault
         try:
@@ -183,7 +187,7 @@ class LineBudget:
         self.budget = None
 
     def _cb(self, code, line):
-        if self.budget is None:
+        if self.budget is None or _thread.get_ident() != self.owner:
             return None
         self.n += 1
         if self.n > self.budget:
@@ -201,6 +205,7 @@ class LineBudget:
 
     def run(self, budget, thunk):
         """Returns (lines_used, 'ok', value) | (lines, 'budget', None) | (lines, 'exc', exc)."""
+        self.owner = _thread.get_ident()
         self.n, self.budget = 0, budget
         try:
             v = thunk()
